@@ -695,29 +695,6 @@ func canonIfs(fset *token.FileSet, pk *packages.Package) int {
 	for _, o := range pk.TypesInfo.Uses {
 		uses[o]++
 	}
-	callFree := func(e ast.Expr) bool {
-		ok := true
-		ast.Inspect(e, func(x ast.Node) bool {
-			switch y := x.(type) {
-			case *ast.CallExpr:
-				if tv, isT := pk.TypesInfo.Types[y.Fun]; isT && tv.IsType() {
-					return true
-				}
-				if id, isID := y.Fun.(*ast.Ident); isID && (id.Name == "len" || id.Name == "cap") {
-					return true
-				}
-				ok = false
-			case *ast.FuncLit:
-				ok = false
-			case *ast.UnaryExpr:
-				if y.Op == token.ARROW {
-					ok = false
-				}
-			}
-			return ok
-		})
-		return ok
-	}
 	var firstLeaf func(e ast.Expr) ast.Expr
 	firstLeaf = func(e ast.Expr) ast.Expr {
 		switch x := e.(type) {
@@ -732,46 +709,172 @@ func canonIfs(fset *token.FileSet, pk *packages.Package) int {
 		}
 		return e
 	}
+	// pureExpr: evaluating e has no effect and does not depend on when it happens relative to other pure expressions
+	// (no calls except len/cap, conversions and a few well-known predicates; no receive, no literal function)
+	var pureExpr func(e ast.Expr) bool
+	pureExpr = func(e ast.Expr) bool {
+		ok := true
+		ast.Inspect(e, func(x ast.Node) bool {
+			switch y := x.(type) {
+			case *ast.CallExpr:
+				if tv, isT := pk.TypesInfo.Types[y.Fun]; isT && tv.IsType() {
+					return true
+				}
+				var id *ast.Ident
+				switch f := ast.Unparen(y.Fun).(type) {
+				case *ast.Ident:
+					id = f
+				case *ast.SelectorExpr:
+					id = f.Sel
+				}
+				if id != nil {
+					switch o := pk.TypesInfo.Uses[id].(type) {
+					case *types.Builtin:
+						if o.Name() == "len" || o.Name() == "cap" {
+							return true
+						}
+					case *types.Func:
+						if o.Pkg() != nil {
+							switch o.Pkg().Path() + "." + o.Name() {
+							case "errors.Is", "strings.HasPrefix", "strings.HasSuffix", "strings.Contains", "strings.EqualFold", "slices.Contains", "bytes.Equal", "strings.ToLower", "strings.TrimSpace":
+								return true
+							}
+						}
+					}
+				}
+				ok = false
+			case *ast.FuncLit:
+				ok = false
+			case *ast.UnaryExpr:
+				if y.Op == token.ARROW {
+					ok = false
+				}
+			}
+			return ok
+		})
+		return ok
+	}
+	// headerSlots: the expressions a statement evaluates before anything else of it runs
+	headerSlots := func(ns ast.Stmt) []ast.Expr {
+		switch x := ns.(type) {
+		case *ast.IfStmt:
+			if x.Init == nil {
+				return []ast.Expr{x.Cond}
+			}
+		case *ast.SwitchStmt:
+			if x.Init == nil {
+				if x.Tag != nil {
+					return []ast.Expr{x.Tag}
+				}
+				if len(x.Body.List) > 0 {
+					if cc := x.Body.List[0].(*ast.CaseClause); len(cc.List) == 1 {
+						return []ast.Expr{cc.List[0]}
+					}
+				}
+			}
+		case *ast.ExprStmt:
+			return []ast.Expr{x.X}
+		case *ast.AssignStmt:
+			return append([]ast.Expr(nil), x.Rhs...)
+		case *ast.ReturnStmt:
+			return append([]ast.Expr(nil), x.Results...)
+		case *ast.RangeStmt:
+			return []ast.Expr{x.X}
+		case *ast.GoStmt:
+			return []ast.Expr{x.Call}
+		case *ast.DeferStmt:
+			return []ast.Expr{x.Call}
+		}
+		return nil
+	}
 	condLocals := func(list []ast.Stmt) []ast.Stmt {
 		var out []ast.Stmt
 		for i := 0; i < len(list); i++ {
 			st := list[i]
 			if as, ok := st.(*ast.AssignStmt); ok && as.Tok == token.DEFINE && len(as.Lhs) == 1 && len(as.Rhs) == 1 && i+1 < len(list) {
-				if is, ok := list[i+1].(*ast.IfStmt); ok && is.Init == nil {
-					if id, ok := as.Lhs[0].(*ast.Ident); ok && id.Name != "_" {
-						obj := pk.TypesInfo.Defs[id]
-						if obj != nil && uses[obj] == 1 {
-							// the single use must be in the condition
-							var use *ast.Ident
-							ast.Inspect(is.Cond, func(x ast.Node) bool {
+				if id, ok := as.Lhs[0].(*ast.Ident); ok && id.Name != "_" {
+					obj := pk.TypesInfo.Defs[id]
+					slots := headerSlots(list[i+1])
+					if obj != nil && uses[obj] == 1 && len(slots) > 0 {
+						// the single use must be in the header of the next statement, outside any function literal
+						var use *ast.Ident
+						var useSlot ast.Expr
+						var inner *ast.CallExpr // innermost call that has the use as a direct operand
+						for _, sl := range slots {
+							var stack []ast.Node
+							ast.Inspect(sl, func(x ast.Node) bool {
+								if x == nil {
+									stack = stack[:len(stack)-1]
+									return true
+								}
+								if _, isLit := x.(*ast.FuncLit); isLit {
+									return false
+								}
+								stack = append(stack, x)
 								if u, ok := x.(*ast.Ident); ok && pk.TypesInfo.Uses[u] == obj {
-									use = u
+									use, useSlot = u, sl
+									if len(stack) >= 2 {
+										if ce, isC := stack[len(stack)-2].(*ast.CallExpr); isC {
+											inner = ce
+										}
+									}
 								}
 								return true
 							})
-							if use != nil && (callFree(as.Rhs[0]) || firstLeaf(is.Cond) == ast.Expr(use)) {
-								rhs := as.Rhs[0]
-								var repl ast.Expr = rhs
-								switch rhs.(type) {
-								case *ast.Ident, *ast.SelectorExpr, *ast.CallExpr, *ast.ParenExpr, *ast.BasicLit, *ast.IndexExpr:
-								default:
-									p := &ast.ParenExpr{Lparen: rhs.Pos(), X: rhs, Rparen: rhs.End()}
-									pk.TypesInfo.Types[p] = pk.TypesInfo.Types[rhs]
-									repl = p
-								}
-								if is.Cond == ast.Expr(use) {
-									is.Cond = repl
-								} else {
-									replaceExprs(is.Cond, func(e ast.Expr) ast.Expr {
-										if e == ast.Expr(use) {
-											return repl
+						}
+						rhs := as.Rhs[0]
+						okMove := false
+						if use != nil {
+							switch {
+							case pureExpr(rhs):
+								okMove = true
+							case firstLeaf(useSlot) == ast.Expr(use) && useSlot == slots[0]:
+								okMove = true // evaluated first, as before
+							default:
+								// the defining expression has effects: everything else the next statement evaluates before its own
+								// effect must be pure, and the use must be a direct operand of the statement's outermost call (or the
+								// whole slot)
+								okMove = true
+								for _, sl := range slots {
+									if sl == useSlot {
+										top, isCall := ast.Unparen(sl).(*ast.CallExpr)
+										switch {
+										case ast.Unparen(sl) == ast.Expr(use):
+										case isCall && inner == top:
+											if !pureExpr(top.Fun) {
+												okMove = false
+											}
+											for _, a := range top.Args {
+												if ast.Unparen(a) != ast.Expr(use) && !pureExpr(a) {
+													okMove = false
+												}
+											}
+										default:
+											okMove = false
 										}
-										return nil
-									})
+									} else if !pureExpr(sl) {
+										okMove = false
+									}
 								}
-								n++
-								continue // the definition is dropped
 							}
+						}
+						if okMove {
+							var repl ast.Expr = rhs
+							switch rhs.(type) {
+							case *ast.Ident, *ast.SelectorExpr, *ast.CallExpr, *ast.ParenExpr, *ast.BasicLit, *ast.IndexExpr:
+							default:
+								p := &ast.ParenExpr{Lparen: rhs.Pos(), X: rhs, Rparen: rhs.End()}
+								pk.TypesInfo.Types[p] = pk.TypesInfo.Types[rhs]
+								repl = p
+							}
+							replaceExprs(list[i+1], func(e ast.Expr) ast.Expr {
+								if e == ast.Expr(use) {
+									return repl
+								}
+								return nil
+							})
+							n++
+							continue // the definition is dropped
 						}
 					}
 				}
